@@ -766,8 +766,9 @@ func (app *App) Use(args ...any) Router {
 
 	for _, prefix := range prefixes {
 		if subApp != nil {
+			// every prefix of the list, like for handlers
 			app.mount(prefix, subApp)
-			return app
+			continue
 		}
 
 		app.register([]string{methodUse}, prefix, nil, handlers...)
